@@ -351,10 +351,10 @@ pub fn run<T: Elem>(beh: &Behaviour, bidx: usize) -> Value {
                 .iter()
                 .zip(st.kinds.iter())
                 .map(|(s, k)| match s {
-                    None => json!(["-", [], 0, 0, 0]),
+                    None => json!(["-", [], 0, 0, 0, 0]),
                     Some(v) => {
                         let ids: Vec<u32> = if T::ZST { vec![] } else { v.iter().map(|e| { e.seen(); e.id() }).collect() };
-                        json!([k, ids, v.len(), -1, 0])
+                        json!([k, ids, v.len(), -1, 0, -1])
                     }
                 })
                 .collect(),
@@ -362,7 +362,7 @@ pub fn run<T: Elem>(beh: &Behaviour, bidx: usize) -> Value {
     };
     let init_created = elem::with(|c| c.created.clone());
     steps_out.push(json!({"op": "init", "c": 1, "d": 0, "i": 0, "j": 0, "s": "", "pk": "", "pn": 0,
-        "o": {"out": "ok", "injp": false, "msg": "", "ret": [], "num": [], "cs": snap(&st), "dr": [], "cr": init_created,
+        "o": {"out": "ok", "injp": false, "msg": "", "ret": [], "num": [], "cs": snap(&st), "dr": [], "cr": init_created, "cl": [],
               "tomb": false, "held": [], "zc": elem::with(|c| c.zst_created), "zd": elem::with(|c| c.zst_dropped), "xcb": 0}}));
     let mut stopped = false;
     for s in &beh.steps {
@@ -394,12 +394,13 @@ pub fn run<T: Elem>(beh: &Behaviour, bidx: usize) -> Value {
             break;
         }
         let (dr, cr, xcb, fired) = elem::with(|c| (c.dropped.clone(), c.created.clone(), c.fresh_underflow, c.fired));
+            let cl: Vec<Vec<u32>> = elem::with(|c| c.clones.iter().map(|(a, b)| vec![*a, *b]).collect());
         let cs = snap(&st);
         let held: Vec<u32> = st.held.iter().map(|e| e.id()).collect();
         let tomb = elem::with(|c| c.tomb);
         let (zc, zd) = elem::with(|c| (c.zst_created, c.zst_dropped));
         steps_out.push(json!({"op": s.op, "c": s.c, "d": s.d, "i": s.i, "j": s.j, "s": s.s, "pk": s.pk_s, "pn": s.pn, "e": s.e,
-            "o": {"out": out, "injp": injp, "fired": fired, "msg": msg, "ret": st.ret, "num": st.num, "cs": cs, "dr": dr, "cr": cr,
+            "o": {"out": out, "injp": injp, "fired": fired, "msg": msg, "ret": st.ret, "num": st.num, "cs": cs, "dr": dr, "cr": cr, "cl": cl,
                   "tomb": tomb, "held": held, "zc": zc, "zd": zd, "xcb": xcb}}));
     }
     for c in st.slots.drain(..) {
@@ -409,5 +410,5 @@ pub fn run<T: Elem>(beh: &Behaviour, bidx: usize) -> Value {
         mem::forget(h);
     }
     json!({"b": bidx, "shape": if T::ZST { "std-ez" } else { "std-e16" }, "up": true, "ma": 0, "kind": beh.kind, "zst": beh.zst,
-           "crash": false, "unsup": false, "std": true, "stopped": stopped, "steps": steps_out})
+           "crash": false, "unsup": false, "std": true, "stopped": stopped, "esz": 0, "steps": steps_out})
 }
